@@ -37,7 +37,7 @@ TConv == LET r == Events[l] IN
                       <<r.entry = "static" => r.vs_runtime <= BudgetEntry, "conv_static_vs_runtime">>,
                       <<ClassesOK(r.classes), "inconclusive_value_classes">> >>
          failed == SelectSeq(checks, LAMBDA c : ~c[1])
-     IN bad' = bad \o [i \in 1..Len(failed) |-> V(failed[i][2], r)]
+     IN bad' = IF Len(bad) >= 400 THEN bad ELSE bad \o [i \in 1..Len(failed) |-> V(failed[i][2], r)]
   /\ toStd'   = IF r.to = Std[r.type]   THEN toStd \cup {<<r.type, r.from, r.num, r.entry>>} ELSE toStd
   /\ fromStd' = IF r.from = Std[r.type] THEN fromStd \cup {<<r.type, r.to, r.num, r.entry>>} ELSE fromStd
   /\ pairs' = pairs + 1
